@@ -233,13 +233,45 @@ def network_membership(rep, cases, rng, n):
 def matrix_checks(rep, cases, rng):
     """build_*_matrix of librdengine (the link to the engine tables)."""
     species = [Species(l) for l in LABELS]
+    envs = ["a", "b", "c"]
     for _ in range(200):
         cs = rng.sample(cases, 3)
-        reacs = []
+        reacs, want_k = [], {e: [] for e in envs}
         for c in cs:
-            r = Reaction(text_of(c["tight"]), kf=1.0, kr=2.0)
+            # constants per environment in every shape a dictionary may take: some environments listed, a default or none
+            ks = []
+            for _side in range(2):
+                shape = rng.choice(["scalar", "all", "some", "some+default", "default-only", "grouped"])
+                vals = {e: float(rng.choice([0, 1, 2, 3, 5, 7])) for e in envs}
+                dflt = float(rng.choice([0, 4, 9]))
+                if shape == "scalar":
+                    k = vals["a"]
+                    eff = {e: vals["a"] for e in envs}
+                elif shape == "all":
+                    k, eff = dict(vals), dict(vals)
+                elif shape == "some":
+                    k = {"a": vals["a"], "c": vals["c"]}
+                    eff = {"a": vals["a"], "b": 0.0, "c": vals["c"]}
+                elif shape == "some+default":
+                    k = {"b": vals["b"], "default": dflt}
+                    eff = {"a": dflt, "b": vals["b"], "c": dflt}
+                elif shape == "default-only":
+                    k = {"default": dflt}
+                    eff = {e: dflt for e in envs}
+                else:
+                    k = {"a , c": vals["a"], "default": dflt}
+                    eff = {"a": vals["a"], "b": dflt, "c": vals["a"]}
+                ks.append((k, eff))
+            r = Reaction(text_of(c["tight"]), kf=ks[0][0], kr=ks[1][0])
             f, b = r.split()
             reacs += [f, b]
+            for e in envs:
+                want_k[e] += [ks[0][1][e], ks[1][1][e]]
+        km = [float(v) for v in librdengine.build_reaction_rate_constant_matrix(reacs, envs, UnitsSystem())]
+        want_km = [v for e in envs for v in want_k[e]]
+        if km != want_km:
+            rep.violation("matrices", "reaction:engine-rate-constant-matrix", {"equations": [text_of(c["tight"]) for c in cs],
+                                                                               "kf": [str(r.kf) for r in reacs], "got": km, "want": want_km})
         sub = list(librdengine.build_substrate_stoechiometric_matrix(species, reacs))
         sto = list(librdengine.build_stoechiometric_difference_matrix(species, reacs))
         R = len(reacs)
